@@ -33,15 +33,17 @@ GeoMatches(bs, o, g) ==
    /\ ToSet(o.backups) = g.backups                                   \* C20: backups exactly where the format prescribes
    /\ ResizeInodeMatches(bs, o.rsz, g)
 \* option families whose effect is one plain field (all accepted lines, modelled geometry or not)
-Requested(r) ==
+RetriedBpg(r) == r.obs.bpg # (IF r.cfg.bpg # 0 THEN r.cfg.bpg ELSE Min(r.cfg.bs * 8, 65528))
+RequestedRb(r) == ReqRBlocksOK(r.req.mpct, r.cfg.blocks, r.obs.blocks, r.obs.rblocks, RetriedBpg(r))
+RequestedRest(r) ==
    LET o == r.obs  q == r.req  F == ToSet(o.features)  W == ToSet(r.want_features) IN
    /\ o.stride = q.stride /\ o.stripe = q.stripe
    /\ o.logflex = ReqLogFlex("flex_bg" \in F, q.flex)
-   /\ ReqRBlocksOK(q.mpct, r.cfg.blocks, o.blocks, o.rblocks, o.bpg # (IF r.cfg.bpg # 0 THEN r.cfg.bpg ELSE Min(r.cfg.bs * 8, 65528)))
    /\ ToSet(o.quota) = ReqQuota("quota" \in W, "project" \in W, ToSet(q.quota))
    /\ (q.uid >= 0 => o.uid = q.uid /\ o.gid = q.gid)
    /\ ("has_journal" \in F => o.jblocks = ReqJournalBlocks(q.jmib, r.cfg.bs, o.blocks))
    /\ (r.journal_skipped = 1 => o.blocks < 2048)                     \* the journal may only be dropped below ext2fs_default_journal_size's minimum
+Requested(r) == RequestedRb(r) /\ RequestedRest(r)
 \* features mke2fs documents dropping: the journal (and what depends on it) when the filesystem is too small for one
 \* (it says so on stderr), resize_inode when the reserved GDT does not fit and meta_bg is switched on instead
 Tolerated(r) == (IF r.journal_skipped = 1 THEN {"has_journal", "orphan_file"} ELSE {})
@@ -62,15 +64,24 @@ DevCfg(r) == [CfgOf(r.cfg) EXCEPT !.dev = TRUE]
 KnownDev(r) == /\ r.model = 1 /\ Compute(DevCfg(r)) # Compute(CfgOf(r.cfg))
                /\ GeoMatches(r.cfg.bs, r.obs, Compute(DevCfg(r)))
                /\ Requested(r) /\ r.obs.backups_badcsum = <<>> /\ r.nwrites = 0 /\ r.repro = 1
+\* Second named deviation (Trace_Geometry_dev2.cfg; finding rblocks_not_rescaled_after_cluster_rounding): with bigalloc
+\* ext2fs_initialize rounds the block count down to a cluster boundary but copies s_r_blocks_count, computed by mke2fs from the
+\* REQUESTED count, unchanged; with -m 50 the reserve then exceeds half of the filesystem and every tool refuses the superblock.
+KnownDevRb(r) == /\ "bigalloc" \in ToSet(r.obs.features) /\ r.obs.blocks < r.cfg.blocks
+                 /\ r.obs.rblocks = (r.req.mpct * r.cfg.blocks) \div 100 /\ 2 * r.obs.rblocks > r.obs.blocks
+                 /\ RequestedRest(r) /\ r.obs.backups_badcsum = <<>> /\ r.nwrites = 0 /\ r.repro = 1
 \* lines are independent of one another: a failing line is reported (BADLINE) and the scan goes on
-TMke == /\ l <= Len(Tr) /\ Tr[l].e = "mke2fs"
-        /\ (IF Tr[l].rc = 0 /\ ~Accepted(Tr[l]) THEN PrintT(<<"BADLINE", l>>) ELSE TRUE)
-        /\ l' = l + 1
-TMkeDev == /\ l <= Len(Tr) /\ Tr[l].e = "mke2fs"
-           /\ (IF Tr[l].rc = 0 /\ ~Accepted(Tr[l]) /\ ~KnownDev(Tr[l]) THEN PrintT(<<"BADLINE", l>>) ELSE TRUE)
-           /\ l' = l + 1
+TLine(ok(_)) == /\ l <= Len(Tr) /\ Tr[l].e = "mke2fs"
+                /\ (IF Tr[l].rc = 0 /\ ~ok(Tr[l]) THEN PrintT(<<"BADLINE", l>>) ELSE TRUE)
+                /\ l' = l + 1
+AcceptedOrDev(r) == Accepted(r) \/ KnownDev(r)
+AcceptedOrDevRb(r) == Accepted(r) \/ KnownDevRb(r)
+TMke == TLine(Accepted)
+TMkeDev == TLine(AcceptedOrDev)
+TMkeDevRb == TLine(AcceptedOrDevRb)
 TraceInit == l = 1
 TraceSpec == TraceInit /\ [][TMke]_l
 TraceSpecDev == TraceInit /\ [][TMkeDev]_l
+TraceSpecDevRb == TraceInit /\ [][TMkeDevRb]_l
 TraceAccepted == TLCGet("stats").diameter - 1 = Len(Tr)
 =============================================================================
